@@ -11,7 +11,8 @@ CONSTANTS Names,        \* file names with a known kind
           KindOf,       \* name -> "ljson" | "pts" | "pkl" | "pklgz" | "png" | "bmp"
           BadName,      \* a file name with an unknown extension
           Objs,         \* object ids per export
-          Spellings, D
+          Spellings, D,
+          LooseRefusal  \* TRUE: when an export is refused for two reasons at once either error may be reported
 Dirs == {"A", "B"}
 VARIABLES fs, cwd, hist
 vars == <<fs, cwd, hist>>
@@ -28,7 +29,10 @@ Export(name, obj, sp, dir, ow, ext) ==    \* ext: "" (none given) | "good" (matc
    /\ Len(hist) < D
    /\ LET key == <<Target(sp, dir), name>> IN
       /\ UNCHANGED cwd
-      /\ IF fs[key] # 0 /\ ~ow THEN fs' = fs /\ hist' = Append(hist, RecX("export", name, obj, sp, dir, ow, "OverwriteError", key, ext))
+      /\ IF fs[key] # 0 /\ ~ow THEN /\ fs' = fs
+                                     /\ \/ hist' = Append(hist, RecX("export", name, obj, sp, dir, ow, "OverwriteError", key, ext))
+                                        \/ (LooseRefusal /\ (name = BadName \/ ext = "bad")
+                                            /\ hist' = Append(hist, RecX("export", name, obj, sp, dir, ow, "ValueError", key, ext)))
          ELSE IF name = BadName \/ ext = "bad" THEN fs' = fs /\ hist' = Append(hist, RecX("export", name, obj, sp, dir, ow, "ValueError", key, ext))
          ELSE fs' = [fs EXCEPT ![key] = obj] /\ hist' = Append(hist, RecX("export", name, obj, sp, dir, ow, "", key, ext))
 Import(name, sp, dir) ==
